@@ -135,3 +135,486 @@ impl Recorder {
         }
     }
 }
+
+// ------------------------------------------------------------------------------------------------
+// Candidate-list driver (C07, C08, C16, C18 phonetic part; C03 candidate clause)
+
+pub fn is_emoji_like(s: &str) -> bool {
+    // anything outside ASCII and the Bengali block / general punctuation
+    s.chars().any(|c| {
+        let u = c as u32;
+        u >= 0x2100 && !(0x2018..=0x201D).contains(&u) && u != 0x200C && u != 0x200D
+    })
+}
+
+impl Recorder {
+    /// The word the facts are computed for: the typed text without leading / trailing characters of the
+    /// statement's punctuation set.  This is only a PROPOSAL: the trace specification compares it with
+    /// its own split and skips the fact-based clauses when they differ (texts with colon / back-tick).
+    fn proposed_word(typed: &str) -> (usize, usize) {
+        let cs: Vec<char> = typed.chars().collect();
+        let meta: Vec<char> = crate::script::META.chars().collect();
+        let mut a = 0;
+        while a < cs.len() && meta.contains(&cs[a]) {
+            a += 1;
+        }
+        let mut b = cs.len();
+        while b > a && meta.contains(&cs[b - 1]) {
+            b -= 1;
+        }
+        (a, b)
+    }
+
+    fn directs(&self, word: &str, user_ac: &std::collections::HashMap<String, String>, cache: &mut std::collections::HashMap<String, Value>) -> Value {
+        if let Some(v) = cache.get(word) {
+            return v.clone();
+        }
+        let tl = self.or.translit(word);
+        let mut out = Vec::new();
+        let ac = user_ac.get(word).map(|s| (s, "user")).or_else(|| self.or.autocorrect.get(word).map(|s| (s, "sys")));
+        if let Some((a, who)) = ac {
+            out.push(json!({"t": chars(&self.or.translit(a)), "dist": 0, "ac": who}));
+        }
+        for m in self.or.dict_matches(word) {
+            out.push(json!({"t": chars(&m), "dist": levenshtein(&tl, &m) * 10, "ac": ""}));
+        }
+        let v = Value::Array(out);
+        cache.insert(word.to_string(), v.clone());
+        v
+    }
+
+    /// bases of the proposed word (every split into base + known suffix key)
+    pub fn bases_of(&self, typed: &str) -> Vec<String> {
+        let tc: Vec<char> = typed.chars().collect();
+        let (a, b) = Self::proposed_word(typed);
+        let wc = &tc[a..b];
+        let mut out = Vec::new();
+        if wc.len() > 2 {
+            for i in 1..wc.len() {
+                let key: String = wc[i..].iter().collect();
+                if self.or.suffix.contains_key(&key) {
+                    out.push(wc[..i].iter().collect());
+                }
+            }
+        }
+        out
+    }
+
+    pub fn plist_event(&self, typed: &str, cfg: &Cfg, o: &Obs, user_ac: &std::collections::HashMap<String, String>,
+                       cache: &mut std::collections::HashMap<String, Value>, offered: &std::collections::HashMap<String, Vec<String>>) -> Value {
+        let tc: Vec<char> = typed.chars().collect();
+        let tlp: Vec<Value> = (0..=tc.len()).map(|k| chars(&self.or.translit(&tc[..k].iter().collect::<String>()))).collect();
+        let tls: Vec<Value> = (0..=tc.len()).map(|k| chars(&self.or.translit(&tc[tc.len() - k..].iter().collect::<String>()))).collect();
+        let (a, b) = Self::proposed_word(typed);
+        let word: String = tc[a..b].iter().collect();
+        let directs = self.directs(&word, user_ac, cache);
+        // every split of the word into base + known suffix key
+        let wc: Vec<char> = word.chars().collect();
+        let mut splits = Vec::new();
+        if wc.len() > 2 {
+            for i in 1..wc.len() {
+                let key: String = wc[i..].iter().collect();
+                if let Some(sfx) = self.or.suffix.get(&key) {
+                    let base: String = wc[..i].iter().collect();
+                    let off: Vec<Value> = offered.get(&base).map(|l| l.iter().map(|c| chars(c)).collect()).unwrap_or_default();
+                    splits.push(json!({"at": i, "sfx": chars(sfx), "directs": self.directs(&base, user_ac, cache), "offered": off}));
+                }
+            }
+        }
+        let emoticon = self.or.emoticons.get(typed).map(|e| e.to_string()).unwrap_or_default();
+        let names: Vec<Value> = self.or.emoji_names.get(word.as_str()).map(|l| l.iter().map(|e| chars(e)).collect()).unwrap_or_default();
+        let cands: Vec<Value> = o.cands.iter().enumerate().map(|(i, c)| {
+            let pre = o.pre.get(i).cloned().flatten();
+            json!({"t": chars(c), "emoji": self.or.has_table_emoji(c),
+                   "pre_eq": pre.as_deref() == Some(c.as_str()),
+                   "pre_bijoy": pre.is_some() && pre == bijoy(c),
+                   "pre_bn": pre.as_deref().map(has_bengali).unwrap_or(true),
+                   "readable": pre.is_some()})
+        }).collect();
+        json!({"ev": "plist", "typed": chars(typed), "english": cfg.english && !cfg.ansi, "ansi": cfg.ansi, "smart": cfg.smart,
+               "kind": o.kind, "sel": o.sel, "cands": cands, "tlp": tlp, "tls": tls,
+               "w0": a, "w1": b, "tlw": chars(&self.or.translit(&word)), "directs": directs, "splits": splits,
+               "emoticon": chars(&emoticon), "names": names})
+    }
+
+    /// texts: exhaustive short strings, auto-correct keys, dictionary-guided spellings + suffix keys,
+    /// emoticons, emoji names, random longer words; typed in one long-lived context per configuration.
+    pub fn driver_cands(&mut self, texts: &[String], shard: usize, shards: usize) {
+        let cfgs = [
+            Cfg { layout: "phonetic".into(), psug: true, english: true, smart: true, db: true, ..Default::default() },
+            Cfg { layout: "phonetic".into(), psug: true, english: false, smart: false, db: true, ..Default::default() },
+            Cfg { layout: "phonetic".into(), psug: true, english: true, ansi: true, smart: true, db: true, ..Default::default() },
+            Cfg { layout: "phonetic".into(), psug: true, english: false, ansi: true, smart: false, db: true, ..Default::default() },
+        ];
+        clean_home(&self.home);
+        let user_ac: std::collections::HashMap<String, String> = std::collections::HashMap::new();
+        let mut cache = std::collections::HashMap::new();
+        let mut ctxs: Vec<Ctx> = cfgs.iter().map(|c| Ctx::new(c, &self.home).unwrap()).collect();
+        self.emit(json!({"ev": "reset"}));
+        for (n, t) in texts.iter().enumerate() {
+            if n % shards != shard {
+                continue;
+            }
+            // two of the four configurations per text (rotating), all four for emoticons / names
+            let special = self.or.emoticons.contains_key(t.as_str());
+            for (ci, cfg) in cfgs.iter().enumerate() {
+                if !special && (n / shards + ci) % 2 == 1 {
+                    continue;
+                }
+                // the lists offered for the bases alone, in the same context (a user typing the word passes them too)
+                let mut offered: std::collections::HashMap<String, Vec<String>> = std::collections::HashMap::new();
+                for base in self.bases_of(t) {
+                    let ob = self.type_text(&mut ctxs[ci], &base);
+                    if ob.kind == "full" {
+                        offered.insert(base.clone(), ob.cands.clone());
+                    }
+                    if ob.kind != "panic" {
+                        ctxs[ci].finish();
+                    }
+                }
+                let o = self.type_text(&mut ctxs[ci], t);
+                if o.kind == "panic" {
+                    self.emit(json!({"ev": "panic", "typed": chars(t), "what": o.panic.clone().unwrap_or_default()}));
+                    ctxs[ci] = Ctx::new(cfg, &self.home).unwrap();
+                    continue;
+                }
+                let e = self.plist_event(t, cfg, &o, &user_ac, &mut cache, &offered);
+                self.emit(e);
+                ctxs[ci].finish();
+            }
+        }
+    }
+}
+
+/// The text corpus of the candidate driver.
+pub fn cands_corpus(or: &Oracles, tier_quick: bool, seed: u64) -> Vec<String> {
+    let mut rng = Rng(seed | 1);
+    let typeable: Vec<char> = (33u8..127).map(|b| b as char).collect();
+    let mut out: Vec<String> = Vec::new();
+    for a in &typeable {
+        out.push(a.to_string());
+    }
+    // length 2: exhaustive (thorough) / every 5th (quick)
+    let mut k = 0;
+    for a in &typeable {
+        for b in &typeable {
+            k += 1;
+            if !tier_quick || k % 6 == (seed % 6) as usize {
+                out.push(format!("{}{}", a, b));
+            }
+        }
+    }
+    let mut ac: Vec<&String> = or.autocorrect.keys().collect();
+    ac.sort();
+    for (i, k) in ac.iter().enumerate() {
+        if k.chars().all(|c| (33..127).contains(&(c as u32))) && (!tier_quick || i % 8 == (seed % 8) as usize) {
+            out.push((*k).clone());
+        }
+    }
+    let mut sk: Vec<&String> = or.suffix.keys().collect();
+    sk.sort();
+    let n_sfx = if tier_quick { 40 } else { sk.len() };
+    for b in BASE_WORDS {
+        out.push(b.to_string());
+        for j in 0..n_sfx {
+            let s = if tier_quick { sk[rng.below(sk.len())] } else { sk[j] };
+            if tier_quick && rng.below(3) != 0 {
+                continue;
+            }
+            out.push(format!("{}{}", b, s));
+        }
+        out.push(format!("({})", b));
+        out.push(format!("\"{}\"", b));
+    }
+    let mut emo: Vec<&&str> = or.emoticons.keys().collect();
+    emo.sort();
+    for e in emo {
+        out.push(e.to_string());
+    }
+    let mut names: Vec<&&str> = or.emoji_names.keys().collect();
+    names.sort();
+    for (i, n) in names.iter().enumerate() {
+        if n.chars().all(|c| (33..127).contains(&(c as u32))) && (!tier_quick || i % 4 == (seed % 4) as usize) {
+            out.push(n.to_string());
+            if i % 3 == 0 {
+                out.push(format!("({}!", n));
+            }
+        }
+    }
+    // random longer lowercase words
+    for _ in 0..(if tier_quick { 150 } else { 3000 }) {
+        let len = 3 + rng.below(8);
+        out.push((0..len).map(|_| (b'a' + rng.below(26) as u8) as char).collect());
+    }
+    out
+}
+
+// ------------------------------------------------------------------------------------------------
+// Fixed-layout candidate driver (C15, C16 / C18 fixed part)
+
+const CLEAN: &str = "|()[]{}^$*+?.~!@#%&-_='\";<>/\\,:`\u{0964}\u{200C}";
+pub fn clean(s: &str) -> String {
+    s.chars().filter(|c| !CLEAN.contains(*c)).collect()
+}
+
+impl Recorder {
+    pub fn flist_event(&self, keys_typed: &str, cfg: &Cfg, o: &Obs, used_bs: bool) -> Value {
+        let comp = o.aux.clone();
+        // proposed word: composed text without leading/trailing META characters and colons
+        let cs: Vec<char> = comp.chars().collect();
+        let meta: Vec<char> = crate::script::META.chars().chain([':', '\u{0964}']).collect();
+        let mut a = 0;
+        while a < cs.len() && meta.contains(&cs[a]) {
+            a += 1;
+        }
+        let mut b = cs.len();
+        while b > a && meta.contains(&cs[b - 1]) {
+            b -= 1;
+        }
+        let word: String = cs[a..b].iter().collect();
+        let lead: String = cs[..a].iter().collect();
+        let trail: String = cs[b..].iter().collect();
+        let cw = clean(&word);
+        let cands: Vec<Value> = o.cands.iter().enumerate().map(|(i, c)| {
+            let pre = o.pre.get(i).cloned().flatten();
+            let cc = clean(&uncurl(c));
+            // inner text of the candidate: without the wrapping of the composed text (curled or not)
+            let mut inner: &str = c.as_str();
+            for l in [lead.clone(), lead.chars().map(|x| match x { '\'' => '\u{2018}', '"' => '\u{201C}', o => o }).collect::<String>()] {
+                if !l.is_empty() && inner.starts_with(l.as_str()) {
+                    inner = &inner[l.len()..];
+                    break;
+                }
+            }
+            for t in [trail.clone(), trail.chars().map(|x| match x { '\'' => '\u{2019}', '"' => '\u{201D}', o => o }).collect::<String>()] {
+                if !t.is_empty() && inner.ends_with(t.as_str()) {
+                    inner = &inner[..inner.len() - t.len()];
+                    break;
+                }
+            }
+            json!({"t": chars(c), "emoji": self.or.has_table_emoji(c),
+                   "dictword": self.or.dict_words.contains(&cc),
+                   "prefix": !cw.is_empty() && cc.starts_with(&cw),
+                   "dist": levenshtein(&word, inner) * 10,
+                   "pre_eq": pre.as_deref() == Some(c.as_str()),
+                   "pre_bijoy": pre.is_some() && pre == bijoy(c),
+                   "pre_bn": pre.as_deref().map(has_bengali).unwrap_or(true),
+                   "readable": pre.is_some()})
+        }).collect();
+        let emoticon = self.or.emoticons.get(keys_typed).map(|e| e.to_string()).unwrap_or_default();
+        let names: Vec<Value> = self.or.bn_emoji_names.get(word.as_str()).map(|l| l.iter().map(|e| chars(e)).collect()).unwrap_or_default();
+        json!({"ev": "flist", "keys": chars(keys_typed), "comp": chars(&comp), "english": cfg.english && !cfg.ansi, "ansi": cfg.ansi,
+               "smart": cfg.smart, "kar": cfg.kar, "bs": used_bs, "kind": o.kind, "sel": o.sel, "cands": cands,
+               "w0": a, "w1": b, "emoticon": chars(&emoticon), "names": names})
+    }
+
+    /// Type `values` (layout values) through the inverse of the bundled layout; returns the last observation and raw key text.
+    fn type_values(&self, c: &mut Ctx, inv: &LayoutInv, values: &[String]) -> Option<(Obs, String)> {
+        let mut last = Obs::default();
+        let mut raw = String::new();
+        for v in values {
+            let (code, m) = inv.key_for_value(v)?;
+            last = c.key(code, m, 0);
+            if let Some(ch) = self.keys.char_for_code(code) {
+                raw.push(ch);
+            }
+            if last.kind == "panic" {
+                break;
+            }
+        }
+        Some((last, raw))
+    }
+
+    pub fn driver_fcands(&mut self, shard: usize, shards: usize, quick: bool) {
+        let mk = |kar: bool, smart: bool, english: bool, ansi: bool| Cfg {
+            layout: "probhat".into(), fsug: true, english, ansi, smart, vowel: true, chandra: true, kar, reph: true, db: true, ..Default::default()
+        };
+        let cfgs = [mk(true, true, true, false), mk(false, false, false, false), mk(true, false, true, true), mk(false, true, false, true),
+                    mk(false, true, true, false), mk(true, false, false, false)];
+        let inv = LayoutInv::load(&cfgs[0], &self.keys);
+        let mut ctxs: Vec<Ctx> = cfgs.iter().map(|c| Ctx::new(c, &self.home).unwrap()).collect();
+        self.emit(json!({"ev": "reset"}));
+        // corpus: prefixes of dictionary words (sampled / all), Bengali emoji names, emoticons by their key characters
+        let mut words: Vec<String> = self.or.dict_words.iter().cloned().collect();
+        words.sort();
+        let mut items: Vec<(Vec<String>, String)> = Vec::new(); // (values, wrap kind)
+        let step = if quick { 97 } else { 1 };
+        let mut seen = std::collections::HashSet::new();
+        for (i, w) in words.iter().enumerate() {
+            if i % step != (self.rng.0 % step as u64) as usize % step {
+                continue;
+            }
+            let cs: Vec<char> = w.chars().collect();
+            for k in 1..=cs.len().min(if quick { 6 } else { 12 }) {
+                let p: String = cs[..k].iter().collect();
+                if seen.insert(p.clone()) {
+                    items.push((cs[..k].iter().map(|c| c.to_string()).collect(), String::new()));
+                }
+            }
+        }
+        let mut names: Vec<String> = self.or.bn_emoji_names.keys().map(|s| s.to_string()).collect();
+        names.sort();
+        for n in names {
+            items.push((n.chars().map(|c| c.to_string()).collect(), "name".into()));
+        }
+        let wraps: [(&str, &str); 6] = [("", ""), ("(", ")"), ("\"", "\""), ("'", "?"), ("", ":"), ("\"", "")];
+        let mut n = 0usize;
+        for (vals, kind) in items {
+            n += 1;
+            if n % shards != shard {
+                continue;
+            }
+            let ci = (n / shards) % cfgs.len();
+            let (l, t) = if kind == "name" { wraps[(n / shards) % 3] } else { wraps[(n / shards / 7) % wraps.len()] };
+            let mut seq: Vec<String> = l.chars().map(|c| c.to_string()).collect();
+            seq.extend(vals.iter().cloned());
+            seq.extend(t.chars().map(|c| c.to_string()));
+            match self.type_values(&mut ctxs[ci], &inv, &seq) {
+                Some((o, raw)) => {
+                    if o.kind == "panic" {
+                        self.emit(json!({"ev": "panic", "typed": chars(&seq.concat()), "what": o.panic.clone().unwrap_or_default()}));
+                        ctxs[ci] = Ctx::new(&cfgs[ci], &self.home).unwrap();
+                        continue;
+                    }
+                    let e = self.flist_event(&raw, &cfgs[ci], &o, false);
+                    self.emit(e);
+                    ctxs[ci].finish();
+                }
+                None => {
+                    ctxs[ci].finish();
+                }
+            }
+        }
+        // emoticons: typed by their raw key characters
+        let mut emo: Vec<String> = self.or.emoticons.keys().map(|s| s.to_string()).collect();
+        emo.sort();
+        for (i, e) in emo.iter().enumerate() {
+            if i % shards != shard {
+                continue;
+            }
+            for ci in [0usize, 1, 2] {
+                let mut last = Obs::default();
+                let mut ok = true;
+                for ch in e.chars() {
+                    match self.keys.code_for_char(ch) {
+                        Some(code) => last = ctxs[ci].key(code, 0, 0),
+                        None => ok = false,
+                    }
+                }
+                if ok && last.kind == "full" {
+                    let ev = self.flist_event(e, &cfgs[ci], &last, false);
+                    self.emit(ev);
+                } else if last.kind == "panic" {
+                    self.emit(json!({"ev": "panic", "typed": chars(e), "what": last.panic.clone().unwrap_or_default()}));
+                    ctxs[ci] = Ctx::new(&cfgs[ci], &self.home).unwrap();
+                    continue;
+                }
+                ctxs[ci].finish();
+            }
+        }
+    }
+}
+
+// ------------------------------------------------------------------------------------------------
+// C16 data-exhaustive pass: every dictionary word, every suffix-joined form reachable from the bundled
+// auto-correct keys, and every value (and pair of values) a layout key can emit, through the pre-edit
+// accessor of a returned suggestion in ANSI mode.
+
+/// The code points the third-party Bijoy encoder is known to panic on (known finding F18): U+09C4..U+09C6, U+09C9, U+09CA.
+pub fn known_unencodable(s: &str) -> bool {
+    s.chars().any(|c| matches!(c as u32, 0x09C4..=0x09C6 | 0x09C9 | 0x09CA))
+}
+
+impl Recorder {
+    fn enc_event(&self, text: &str, how: &str) -> Value {
+        let t = text.to_string();
+        let sug = riti::suggestion::Suggestion::new_lonely(t.clone(), true);
+        let pre = std::panic::catch_unwind(std::panic::AssertUnwindSafe(|| sug.get_pre_edit_text(0))).ok();
+        if pre.is_none() {
+            let _ = take_panic();
+        }
+        json!({"ev": "enc", "w": text, "how": how, "readable": pre.is_some(), "known_unencodable": known_unencodable(text),
+               "pre_bn": pre.as_deref().map(has_bengali).unwrap_or(true),
+               "pre_bijoy": pre.is_some() && pre == bijoy(text)})
+    }
+
+    pub fn driver_enc(&mut self, shard: usize, shards: usize, quick: bool) {
+        self.emit(json!({"ev": "reset"}));
+        let mut words: Vec<String> = self.or.dict_words.iter().cloned().collect();
+        words.sort();
+        let step = if quick { 4 } else { 1 };
+        for (i, w) in words.iter().enumerate() {
+            if i % shards == shard && (i / shards) % step == 0 {
+                let e = self.enc_event(w, "dictionary word");
+                self.emit(e);
+            }
+        }
+        // suffix-joined forms reachable from the bundled auto-correct keys: typed in a real ANSI context
+        let cfg = Cfg { layout: "phonetic".into(), psug: true, ansi: true, db: true, ..Default::default() };
+        let mut ctx = Ctx::new(&cfg, &self.home).unwrap();
+        let mut ac: Vec<String> = self.or.autocorrect.keys().filter(|k| k.chars().all(|c| c.is_ascii_lowercase())).cloned().collect();
+        ac.sort();
+        let mut sk: Vec<String> = self.or.suffix.keys().cloned().collect();
+        sk.sort();
+        for (i, k) in ac.iter().enumerate() {
+            if i % shards != shard || (quick && (i / shards) % 6 != 0) {
+                continue;
+            }
+            let o0 = self.type_text(&mut ctx, k);
+            if o0.kind != "panic" {
+                ctx.finish();
+            }
+            for j in 0..(if quick { 2 } else { 12 }) {
+                let s = &sk[(i * 31 + j * 97) % sk.len()];
+                let typed = format!("{}{}", k, s);
+                let o = self.type_text(&mut ctx, &typed);
+                if o.kind == "panic" {
+                    self.emit(json!({"ev": "panic", "typed": chars(&typed), "what": o.panic.clone().unwrap_or_default()}));
+                    ctx = Ctx::new(&cfg, &self.home).unwrap();
+                    continue;
+                }
+                for (ci, c) in o.cands.iter().enumerate() {
+                    let pre = o.pre.get(ci).cloned().flatten();
+                    self.emit(json!({"ev": "enc", "w": c, "how": format!("candidate of {:?} (ANSI)", typed), "readable": pre.is_some(), "known_unencodable": known_unencodable(c),
+                                     "pre_bn": pre.as_deref().map(has_bengali).unwrap_or(true), "pre_bijoy": pre.is_some() && pre == bijoy(c)}));
+                }
+                ctx.finish();
+            }
+        }
+        // every value and every pair of values the bundled layout can emit, in a real fixed ANSI context
+        if shard == 0 {
+            let fcfg = Cfg { layout: "probhat".into(), fsug: false, ansi: true, db: false, ..Default::default() };
+            let inv = LayoutInv::load(&fcfg, &self.keys);
+            let mut fctx = Ctx::new(&fcfg, &self.home).unwrap();
+            let mut vals: Vec<String> = inv.inv.keys().cloned().collect();
+            vals.sort();
+            let mut seqs: Vec<Vec<String>> = vals.iter().map(|v| vec![v.clone()]).collect();
+            if !quick {
+                for a in &vals {
+                    for b in &vals {
+                        seqs.push(vec![a.clone(), b.clone()]);
+                    }
+                }
+            } else {
+                for a in &vals {
+                    seqs.push(vec!["\u{0995}".to_string(), a.clone()]);
+                }
+            }
+            for s in seqs {
+                if let Some((o, _)) = self.type_values(&mut fctx, &inv, &s) {
+                    if o.kind == "panic" {
+                        self.emit(json!({"ev": "panic", "typed": chars(&s.concat()), "what": o.panic.clone().unwrap_or_default()}));
+                        fctx = Ctx::new(&fcfg, &self.home).unwrap();
+                        continue;
+                    }
+                    let pre = o.pre.get(0).cloned().flatten();
+                    let text = o.cands.get(0).cloned().unwrap_or_default();
+                    let ku = known_unencodable(&text) || s.iter().any(|v| known_unencodable(v));
+                    self.emit(json!({"ev": "enc", "w": text, "how": format!("fixed layout keys {:?} (ANSI)", s), "known_unencodable": ku, "readable": pre.is_some() || o.kind == "empty",
+                                     "pre_bn": pre.as_deref().map(has_bengali).unwrap_or(o.kind != "empty"), "pre_bijoy": o.kind == "empty" || (pre.is_some() && pre == bijoy(&text))}));
+                }
+                fctx.finish();
+            }
+        }
+    }
+}
